@@ -129,6 +129,8 @@ def do_check(pid, tier, seed, args, t0):
     os.makedirs(os.path.join(HERE, "evidence"), exist_ok=True)
 
     violations, known_hits, undecided, errors = [], [], [], []
+    exp_path0 = os.path.join(HERE, "contracts", f"{pid}.expected.json")
+    expected_names = set(json.load(open(exp_path0))) if os.path.exists(exp_path0) else None
     reports = []
     for c in contracts:
         reports.extend(verify.verify_contract(pid, c))
@@ -145,6 +147,8 @@ def do_check(pid, tier, seed, args, t0):
         lr.obligations = lemma_obls
         lr.mk = type("X", (), {"obs": {}})()
         reports.append(lr)
+    EXPECTED[0] = expected_names
+    del UNDECIDED_EXTRA[:]
     ts = time.time()
     verify.solve(reports, timeout_ms=timeout_ms)
     solver_wall = time.time() - ts
@@ -194,6 +198,7 @@ def do_check(pid, tier, seed, args, t0):
             if args.verbose:
                 print(f"  {ob.status:10s} {ob.backend or '-':5s} {ob.time:6.2f}s {ob.name}  {ob.reason}")
 
+    undecided.extend(UNDECIDED_EXTRA)
     # witnesses (cover): the real function satisfies the contract on a concrete input
     wit = run_witnesses(pid, M, contracts, seed, tier)
     for w in wit["failures"]:
@@ -349,6 +354,10 @@ def small_size_refuter(pid, M, contracts, reports, timeout_ms, known):
     return notes
 
 
+EXPECTED = [None]
+UNDECIDED_EXTRA = []
+
+
 def handle_refuted(pid, M, rep, ob, known, violations, known_hits, small=None, keep_first=False):
     """sat: write the replay file, replay on the real code, classify."""
     name = ob.name
@@ -400,6 +409,12 @@ def handle_refuted(pid, M, rep, ob, known, violations, known_hits, small=None, k
             if confirmed and not v.get("confirmed"):
                 v.update({"replay": rp, "confirmed": True})
             return
+    if not confirmed and "candidate only" in (ob.reason or "") and EXPECTED[0] is not None and name not in EXPECTED[0]:
+        # unconfirmed model of an abstraction for an obligation that was never discharged on the pristine
+        # tree: undecided, not a violation
+        ob.status = "undecided"
+        UNDECIDED_EXTRA.append(f"{name}: candidate model did not replay and the obligation is not in the pristine expected list ({ob.reason})")
+        return
     violations.append({"obligation": name, "replay": rp, "confirmed": confirmed})
 
 
